@@ -484,6 +484,20 @@ def prop_decay(case):
     check(np.all(np.isfinite(got)), "decay.finite" + sfx, "non-finite concentration")
     clause = "decay.expm" + sfx
     compare_profile(got, labels, ref, clause, "decay")
+    # a refused evaluation (a non-finite parameter) must leave no trace: the same evaluation afterwards is bit-identical
+    bad = params.copy()
+    for p_ in bad.all():
+        if p_.expression is None:
+            p_.value = float("nan")
+            break
+    try:
+        matrix_of(model, bad, ref.times, "decay.refused")
+        refused = False
+    except Exception:  # noqa: BLE001  (whatever the code raises for a non-finite parameter)
+        refused = True
+    labels2, got2 = matrix_of(model, params, ref.times, "decay.call_after_refused_evaluation" + sfx)
+    check(labels2 == labels and np.array_equal(got, got2), "decay.depends_on_an_earlier_refused_evaluation",
+          lambda: f"max diff {np.abs(got - got2).max() if got.shape == got2.shape else 'shape'}")
     if ref.closed:
         tot = got.sum(axis=1)
         bad = ~(np.abs(tot - ref.j.sum()) <= ref.tol * len(ref.comps))
@@ -491,6 +505,7 @@ def prop_decay(case):
     tags, nontrivial = structure_tags(case, ref)
     if uni:
         tags.append("declared_unibranched")
+    tags.append("nan_parameter_refused" if refused else "nan_parameter_accepted")
     return {"nontrivial": nontrivial, "tags": tags}
 
 
